@@ -2352,7 +2352,22 @@ static Chunk *process_return_or_throw(Chunk *pc)
       chunk.Str() = ")";
       chunk.SetOrigLine(semi->GetOrigLine());
       chunk.SetOrigCol(semi->GetOrigCol() - 1);
-      cpar = chunk.CopyAndAddBefore(semi);
+
+      // a macro body that ends without a semicolon: the expression ends in front of a trailing comment
+      Chunk *before = semi;
+
+      while (  !semi->IsSemicolon()
+            && before->GetPrev()->IsComment()
+            && before->GetPrev() != next)
+      {
+         before = before->GetPrev();
+      }
+
+      if (before != semi)
+      {
+         chunk.SetOrigCol(before->GetPrev()->GetOrigColEnd());
+      }
+      cpar = chunk.CopyAndAddBefore(before);
 
       LOG_FMT(LRETURN, "%s(%d): added parens on orig line %zu\n",
               __func__, __LINE__, pc->GetOrigLine());
